@@ -680,5 +680,53 @@ func rulesC15(e *Engine, r *Report) {
 			_ = fn
 		}
 	}
+	// ---------------------------------------------------------------- R15.7
+	r.Rule("R15.7", "one gatekeeper per source also under concurrency: in getGateKeeper the factory call and the filing of its result happen with the table's write lock held, after a look-up under that same hold found no entry - two first requests of a source must not each build a stage over the same directories (the second would work with its own per-file locks, cache and readiness while the first recovers or receives)")
+	e.checkGateKeeperOnce(r, "R15.7")
 	_ = sort.Strings
+}
+
+// checkGateKeeperOnce: creating the gatekeeper of a source is check-then-act
+// on the table and must be atomic - the factory runs and its result is filed
+// while the table's write lock is held, after a look-up made under that same
+// hold found nothing (F17).  Shared by R15.7 and R09.8.
+func (e *Engine) checkGateKeeperOnce(r *Report, rule string) {
+	fn := needFn(e, r, rule, "http.(*Server).getGateKeeper")
+	if fn == nil {
+		return
+	}
+	src := "call(http.getSourceName)(p1)"
+	fac := e.findInstrs(fn, "dyn(p0.GateKeeperFactory)("+src+")", false)
+	r.Min(rule, "factory calls in getGateKeeper", len(fac), 1)
+	cls := labeler(
+		I("call(sync.(*RWMutex).Lock)(&p0.lock)", "w"),
+		IK("call(sync.(*RWMutex).Unlock)(&p0.lock)", "w"),
+	)
+	target := func(in ssa.Instruction) bool {
+		if _, ok := in.(*ssa.MapUpdate); ok {
+			return true
+		}
+		for _, f := range fac {
+			if f == in {
+				return true
+			}
+		}
+		return false
+	}
+	e.Guarded(r, rule, "http.(*Server).getGateKeeper: gatekeeper built and filed under the table's write lock", fn, target, cls,
+		func(l LabelSet) bool { return l.Has("w") }, "write lock held")
+	locks := e.findInstrs(fn, "call(sync.(*RWMutex).Lock)(&p0.lock)", false)
+	r.Check(len(locks) == 1, rule, "http.(*Server).getGateKeeper: one write-lock acquisition", e.Pos(fn.Pos()), fmt.Sprintf("%d acquisitions of the write lock", len(locks)), 1)
+	if len(locks) == 1 {
+		cls2 := labeler(C("!p0.GateKeepers["+src+"]#1", "absent"))
+		for _, f := range fac {
+			n := e.GuardedFrom(r, rule, "http.(*Server).getGateKeeper: the table is looked up again under the write lock before a gatekeeper is built", fn,
+				FlowOpts{Classify: cls2, Target: only(f), StartAfter: locks[0]},
+				func(l LabelSet) bool { return l.Has("absent") }, "table has no entry (asked after Lock)")
+			if n == 0 {
+				r.Bad(rule, "http.(*Server).getGateKeeper: the table is looked up again under the write lock before a gatekeeper is built", e.InstrPos(f),
+					"the gatekeeper is built before the write lock is taken: two first requests of one source each build their own", 1)
+			}
+		}
+	}
 }
